@@ -279,6 +279,27 @@ def evaluate_payload_template(input, context, template):
         https://states-language.net/#appendix-b
         """
 
+        def is_int(value):
+            # JSON true/false are not integers (Python's bool is an int subclass)
+            return isinstance(value, int) and not isinstance(value, bool)
+
+        def json_equal(a, b):
+            """
+            Equality of JSON values. Python's == treats True == 1 and
+            False == 0, JSON booleans and numbers are however distinct.
+            """
+            if isinstance(a, bool) or isinstance(b, bool):
+                return isinstance(a, bool) and isinstance(b, bool) and a == b
+            if isinstance(a, dict) and isinstance(b, dict):
+                return (a.keys() == b.keys() and
+                        all(json_equal(a[k], b[k]) for k in a))
+            if isinstance(a, list) and isinstance(b, list):
+                return (len(a) == len(b) and
+                        all(json_equal(x, y) for x, y in zip(a, b)))
+            if isinstance(a, (dict, list)) or isinstance(b, (dict, list)):
+                return False
+            return a == b
+
         def asl_intrinsic_Format(args):
             if len(args) < 1 or not isinstance(args[0], str):
                 raise IntrinsicFailure(
@@ -346,27 +367,6 @@ def evaluate_payload_template(input, context, template):
 
         def asl_intrinsic_Array(args):
             return args
-
-        def is_int(value):
-            # JSON true/false are not integers (Python's bool is an int subclass)
-            return isinstance(value, int) and not isinstance(value, bool)
-
-        def json_equal(a, b):
-            """
-            Equality of JSON values. Python's == treats True == 1 and
-            False == 0, JSON booleans and numbers are however distinct.
-            """
-            if isinstance(a, bool) or isinstance(b, bool):
-                return isinstance(a, bool) and isinstance(b, bool) and a == b
-            if isinstance(a, dict) and isinstance(b, dict):
-                return (a.keys() == b.keys() and
-                        all(json_equal(a[k], b[k]) for k in a))
-            if isinstance(a, list) and isinstance(b, list):
-                return (len(a) == len(b) and
-                        all(json_equal(x, y) for x, y in zip(a, b)))
-            if isinstance(a, (dict, list)) or isinstance(b, (dict, list)):
-                return False
-            return a == b
 
         def asl_intrinsic_ArrayPartition(args):
             if len(args) != 2:
@@ -659,48 +659,142 @@ def evaluate_payload_template(input, context, template):
 
             return str(uuid.uuid4())
      
-        def asl_intrinsic_Default(args):
+        def asl_intrinsic_Default(func):
             raise IntrinsicFailure(
                 "Intrinsic Function {} is not supported.".format(func)
             )
 
-
-        # Extract intrinsic name and normalise it to asl_intrinsic_<name>
-        func, args = intrinsic.split("(", 1)
-        func = func.strip()
-        normalised_func = func.replace("States.", "asl_intrinsic_")
-        # Extract raw args string
-        args = args.rsplit(")", 1)[0]
+        """
+        The supported functions by name. An explicit table is used (rather
+        than looking the name up among the local variables) so that a name
+        in a template can only ever select one of these functions.
+        """
+        functions = {
+            "States.Format": asl_intrinsic_Format,
+            "States.StringToJson": asl_intrinsic_StringToJson,
+            "States.JsonToString": asl_intrinsic_JsonToString,
+            "States.Array": asl_intrinsic_Array,
+            "States.ArrayPartition": asl_intrinsic_ArrayPartition,
+            "States.ArrayContains": asl_intrinsic_ArrayContains,
+            "States.ArrayRange": asl_intrinsic_ArrayRange,
+            "States.ArrayGetItem": asl_intrinsic_ArrayGetItem,
+            "States.ArrayLength": asl_intrinsic_ArrayLength,
+            "States.ArrayUnique": asl_intrinsic_ArrayUnique,
+            "States.Base64Encode": asl_intrinsic_Base64Encode,
+            "States.Base64Decode": asl_intrinsic_Base64Decode,
+            "States.Hash": asl_intrinsic_Hash,
+            "States.JsonMerge": asl_intrinsic_JsonMerge,
+            "States.MathRandom": asl_intrinsic_MathRandom,
+            "States.MathAdd": asl_intrinsic_MathAdd,
+            "States.StringSplit": asl_intrinsic_StringSplit,
+            "States.UUID": asl_intrinsic_UUID,
+        }
 
         """
-        Extract the individual args from the raw string into a list. Intrinsic
-        Function arguments may be strings enclosed by apostrophe (') characters,
-        numbers, null, Paths, or nested Intrinsic Functions. The regex finds
-        each valid argument as follows:
-        \'.*?(?<!\\\\)\'        extracts apostrophe delimited string. This uses
-            a negative lookbehind to match a closing ' only if not preceeded
-            by a \\ in order to support escaped apostrophes in the string.
-        States.*?\\)            extracts nested intrinsic
+        Parse the Intrinsic Function with a small recursive descent parser.
+        Intrinsic Function arguments may be strings enclosed by apostrophe (')
+        characters, numbers, null, true, false, Paths, or nested Intrinsic
+        Functions (to any depth):
 
-        String and nested intrinsics can contain commas so we explicitly match
-        those cases, but the last part of the regex '|[^\\s*,]+' just matches
-        anything except whitespace comma. We actually *want* a fairly loose
-        match here so if we have an invalid number like f123.45 it would match
-        but subsequent evaluation would raise an IntrinsicFailure which we want.
+        call   ::= name '(' [ arg { ',' arg } ] ')'
+        arg    ::= string | number | 'null' | 'true' | 'false' | path | call
+        string ::= "'" { character } "'"   where backslash apostrophe is an
+                   apostrophe and backslash backslash is a backslash, any other
+                   backslash stands for itself (so that escaped braces reach
+                   States.Format)
+        path   ::= '$' followed by anything up to white space , ( or )
+
+        White space is allowed around names, arguments, commas and brackets.
+        Strings may therefore contain commas, brackets and escaped apostrophes.
+        Anything else is malformed and raises IntrinsicFailure.
         """
-        arglist = re.findall('\'.*?(?<!\\\\)\'|States.*?\\)|[^\\s*,]+', args)
+        text = intrinsic
+        length = len(text)
+        WHITESPACE = " \t\r\n"
+        DIGITS = "0123456789"
+        LETTERS = "abcdefghijklmnopqrstuvwxyzABCDEFGHIJKLMNOPQRSTUVWXYZ_"
 
-        # Evaluate the arguments
-        for i, arg in enumerate(arglist):
-            if arg.startswith("'"):  # It's an apostrophe delimited string
-                arglist[i] = arg.strip("'")
-            elif arg.startswith("$"):  # It's a path
-                arglist[i] = apply_path(input, context, arg)
-            elif arg.startswith("States."):  # It's a nested intrinsic function
-                arglist[i] = evaluate_intrinsic_function(arg)
-            elif arg == "null":
-                arglist[i] = None
-            elif arg == "true":
+        def malformed(reason):
+            raise IntrinsicFailure(
+                "Intrinsic Function {} is malformed: {}.".format(text, reason)
+            )
+
+        def skip_whitespace(i):
+            while i < length and text[i] in WHITESPACE:
+                i += 1
+            return i
+
+        def at_token_end(i):
+            return i >= length or text[i] in WHITESPACE or text[i] in ",)"
+
+        def parse_string(i):  # i is the index just after the opening '
+            chars = []
+            while i < length:
+                c = text[i]
+                if c == "'":
+                    return "".join(chars), i + 1
+                if c == "\\" and i + 1 < length and text[i + 1] in "'\\":
+                    chars.append(text[i + 1])
+                    i += 2
+                else:
+                    chars.append(c)
+                    i += 1
+            malformed("unterminated string")
+
+        def parse_number(i):
+            j = i + 1 if text[i] == "-" else i
+            k = j
+            while k < length and text[k] in DIGITS:
+                k += 1
+            if k > j and at_token_end(k):
+                return int(text[i:k]), k
+            match = re.compile(
+                r"-?[0-9]+(\.[0-9]+)?([eE][-+]?[0-9]+)?"
+            ).match(text, i)
+            if match and at_token_end(match.end()):
+                return float(match.group()), match.end()
+            malformed("invalid number at {}".format(i))
+
+        def parse_arg(i):
+            """
+            Returns (thunk, next index) where calling thunk evaluates the
+            argument. Evaluation is deferred until the whole text has parsed.
+            """
+            i = skip_whitespace(i)
+            if i >= length:
+                malformed("argument expected at end")
+            c = text[i]
+            if c == "'":  # It's an apostrophe delimited string
+                value, i = parse_string(i + 1)
+                return (lambda: value), i
+            if c == "$":  # It's a path
+                j = i + 1
+                while j < length and text[j] not in WHITESPACE and text[j] not in ",()":
+                    j += 1
+                if not at_token_end(j):
+                    malformed("invalid path at {}".format(i))
+                path = text[i:j]
+                return (lambda: apply_path(input, context, path)), j
+            if c == "-" or c in DIGITS:
+                value, i = parse_number(i)
+                return (lambda: value), i
+            if c in LETTERS:
+                j = i + 1
+                while j < length and (text[j] in LETTERS or text[j] in DIGITS or text[j] == "."):
+                    j += 1
+                name = text[i:j]
+                k = skip_whitespace(j)
+                if k < length and text[k] == "(":  # It's a (nested) intrinsic function
+                    thunks, k = parse_args(k + 1)
+                    function = functions.get(name)
+
+                    def call():
+                        # Evaluate the arguments left to right
+                        arglist = [thunk() for thunk in thunks]
+                        if function is None:
+                            asl_intrinsic_Default(name)
+                        return function(arglist)
+                    return call, k
                 """
                 Note that the ASL spec doesn't explicitly include booleans in
                 the supported Intrinsic Function arguments, however as there
@@ -708,31 +802,35 @@ def evaluate_payload_template(input, context, template):
                 the Values of the arguments, the implication is that arguments
                 could be JSON primitives. It's a little unclear.
                 """
-                arglist[i] = True
-            elif arg == "false":
-                arglist[i] = False
-            else:
-                try:
-                    arglist[i] = int(arg)
-                except ValueError:
-                    try:
-                        arglist[i] = float(arg)
-                    except ValueError:
-                        raise IntrinsicFailure(
-                            "Intrinsic Function {}, Invalid argument {}.".format(func, arg)
-                        )
+                constants = {"null": None, "true": True, "false": False}
+                if name in constants and at_token_end(j):
+                    value = constants[name]
+                    return (lambda: value), j
+            malformed("invalid argument at {}".format(i))
 
-        """
-        We used
-        normalised_func = func.replace("States.", "asl_intrinsic_")
-        and the "asl_intrinsic_" prefix mitigates the risk of the supplied value
-        executing an arbitrary function, so disable semgrep warning.
-        """
-        # nosemgrep
-        return locals().get(
-            normalised_func,
-            asl_intrinsic_Default,
-        )(arglist)
+        def parse_args(i):  # i is the index just after the opening (
+            thunks = []
+            i = skip_whitespace(i)
+            if i < length and text[i] == ")":
+                return thunks, i + 1
+            while True:
+                thunk, i = parse_arg(i)
+                thunks.append(thunk)
+                i = skip_whitespace(i)
+                if i < length and text[i] == ",":
+                    i += 1
+                elif i < length and text[i] == ")":
+                    return thunks, i + 1
+                else:
+                    malformed("',' or ')' expected at {}".format(i))
+
+        start = skip_whitespace(0)
+        if start >= length or text[start] not in LETTERS:
+            malformed("function name expected")
+        thunk, end = parse_arg(start)
+        if text[end - 1] != ")" or skip_whitespace(end) != length:
+            malformed("a single function call expected")
+        return thunk()
 
     def evaluate(k, v=None, is_tuple=False):
         """
@@ -748,8 +846,14 @@ def evaluate_payload_template(input, context, template):
             v = k
 
         if v_is_path_or_intrinsic:
+            if not isinstance(v, str):
+                raise IntrinsicFailure(
+                    "The value of field {}.$ must be a Path or an Intrinsic Function, not {}".format(k, v)
+                )
             if v == "$":  # It's a path representing the root node
-                v = clone(input)  # clone to avoid potential circular reference
+                # copy to avoid potential circular reference. The input is data
+                # not a template, fields ending .$ within it are not evaluated.
+                v = copy.deepcopy(input)
             elif v.startswith("$"):  # It's a path
                 v = apply_path(input, context, v)
             else:  # It's an Intrinsic Function
